@@ -12,6 +12,7 @@ import (
 	"math"
 	"os"
 	"runtime/debug"
+	"slices"
 	"sort"
 	"strconv"
 	"strings"
@@ -363,6 +364,10 @@ var qRejectTable = [][2]string{
 	{"cannot drop fields, since they do not exist", "dropMissing"},
 	{"list is empty", "selectEmpty"},
 	{"cannot select fields: duplicate URN", "selectDup"},
+	{"delta filter can only be applied to numeric", "deltaNonNumeric"},
+	{"delta filter can only be applied to required", "deltaOptional"},
+	{"rate filter can only be applied to numeric", "rateNonNumeric"},
+	{"rate filter can only be applied to required", "rateOptional"},
 	{"cannot replace field, since it does not exist", "replaceMissing"},
 	{"cannot replace field ", "replaceDup"},
 	{"since it already exists in the result", "overrideConflict"},
@@ -440,18 +445,47 @@ func qAtomOf(n *qsx) (string, error) {
 
 type qBuilder struct {
 	ctr *int64 // the probe: records pulled from the static streams of this build
+	ev  *int64 // the probe: provider events (Open / Emit incl. the EOF call / Close) of the static streams [C05 Q cases]
+	ext bool   // accept the extra filter kinds of the C05 Q grammar (align / alignfill / delta / rate)
 }
 
-func newQBuilder() *qBuilder { return &qBuilder{ctr: new(int64)} }
+func newQBuilder() *qBuilder { return &qBuilder{ctr: new(int64), ev: new(int64)} }
 
 func (b *qBuilder) pulled() int64 { return atomic.LoadInt64(b.ctr) }
 
-func qProbe[T any](b *qBuilder, s stream.Stream[T]) stream.Stream[T] {
-	ctr := b.ctr
-	return stream.Map(s, func(v T) T {
-		atomic.AddInt64(ctr, 1)
-		return v
-	})
+func (b *qBuilder) events() int64 { return atomic.LoadInt64(b.ev) }
+
+// qProbeProvider is the probe under every static datasource: a slice-backed stream.Provider that counts its
+// Open / Emit / Close calls (ev) and the records it delivers (ctr).
+type qProbeProvider[T any] struct {
+	rows []T
+	idx  int
+	ctr  *int64
+	ev   *int64
+}
+
+func (p *qProbeProvider[T]) Open(_ context.Context) error {
+	atomic.AddInt64(p.ev, 1)
+	p.idx = 0
+	return nil
+}
+
+func (p *qProbeProvider[T]) Emit(_ context.Context) (T, error) {
+	atomic.AddInt64(p.ev, 1)
+	if p.idx >= len(p.rows) {
+		var zero T
+		return zero, io.EOF
+	}
+	v := p.rows[p.idx]
+	p.idx++
+	atomic.AddInt64(p.ctr, 1)
+	return v, nil
+}
+
+func (p *qProbeProvider[T]) Close() { atomic.AddInt64(p.ev, 1) }
+
+func qProbeRows[T any](b *qBuilder, rows []T) stream.Stream[T] {
+	return stream.NewStream[T](&qProbeProvider[T]{rows: slices.Clone(rows), ctr: b.ctr, ev: b.ev})
 }
 
 func (b *qBuilder) fm(n *qsx) (*tsquery.FieldMeta, error) {
@@ -962,8 +996,59 @@ func (b *qBuilder) rf(n *qsx) (report.Filter, error) {
 			return nil, err
 		}
 		return report.NewConditionFilter(v), nil
+	case "align", "alignfill":
+		if !b.ext {
+			return nil, errQBad
+		}
+		ap, fm, err := qAlignArgs(a)
+		if err != nil {
+			return nil, err
+		}
+		if fm == nil {
+			return report.NewAlignerFilter(ap), nil
+		}
+		return report.NewInterpolatingAlignerFilter(ap, *fm), nil
 	}
 	return nil, errQBad
+}
+
+// qAlignArgs parses ( align periodNanos ) / ( alignfill periodNanos linear|forward ) of the C05 Q grammar.
+func qAlignArgs(a []*qsx) (timeseries.AlignmentPeriod, *timeseries.FillMode, error) {
+	if len(a) < 2 {
+		return nil, nil, errQBad
+	}
+	ps, err := qAtomOf(a[1])
+	if err != nil {
+		return nil, nil, err
+	}
+	p, err := qInt64Atom(ps)
+	if err != nil || p <= 0 {
+		return nil, nil, errQBad
+	}
+	ap := timeseries.NewFixedAlignmentPeriod(time.Duration(p), time.UTC)
+	if a[0].atom == "align" {
+		if len(a) != 2 {
+			return nil, nil, errQBad
+		}
+		return ap, nil, nil
+	}
+	if len(a) != 3 {
+		return nil, nil, errQBad
+	}
+	ms, err := qAtomOf(a[2])
+	if err != nil {
+		return nil, nil, err
+	}
+	var fm timeseries.FillMode
+	switch ms {
+	case "linear":
+		fm = timeseries.FillModeLinear
+	case "forward":
+		fm = timeseries.FillModeForwardFill
+	default:
+		return nil, nil, errQBad
+	}
+	return ap, &fm, nil
 }
 
 // df builds a datasource filter.
@@ -1009,6 +1094,65 @@ func (b *qBuilder) df(n *qsx) (datasource.Filter, error) {
 			return nil, err
 		}
 		return datasource.NewOverrideFieldMetadataFilter(nu, nun, cm), nil
+	}
+	if b.ext {
+		switch n.head() {
+		case "align", "alignfill":
+			ap, fm, err := qAlignArgs(a)
+			if err != nil {
+				return nil, err
+			}
+			if fm == nil {
+				return datasource.NewAlignerFilter(ap), nil
+			}
+			return datasource.NewInterpolatingAlignerFilter(ap, *fm), nil
+		case "delta": // ( delta nonNegative maxCounter )
+			if len(a) != 3 {
+				return nil, errQBad
+			}
+			nn, err := qBoolFlag(a[1])
+			if err != nil {
+				return nil, err
+			}
+			ms, err := qAtomOf(a[2])
+			if err != nil {
+				return nil, err
+			}
+			mx, err := qInt64Atom(ms)
+			if err != nil {
+				return nil, err
+			}
+			return datasource.NewDeltaFilter(nn, float64(mx)), nil
+		case "rate": // ( rate 'unit perSeconds nonNegative maxCounter )
+			if len(a) != 5 {
+				return nil, errQBad
+			}
+			u, err := qStr(a[1])
+			if err != nil {
+				return nil, err
+			}
+			pss, err := qAtomOf(a[2])
+			if err != nil {
+				return nil, err
+			}
+			ps, err := qInt64Atom(pss)
+			if err != nil {
+				return nil, err
+			}
+			nn, err := qBoolFlag(a[3])
+			if err != nil {
+				return nil, err
+			}
+			ms, err := qAtomOf(a[4])
+			if err != nil {
+				return nil, err
+			}
+			mx, err := qInt64Atom(ms)
+			if err != nil {
+				return nil, err
+			}
+			return datasource.NewRateFilter(u, int(ps), nn, float64(mx)), nil
+		}
 	}
 	return nil, errQBad
 }
@@ -1067,7 +1211,7 @@ func (b *qBuilder) rds(n *qsx) (report.DataSource, error) {
 			}
 			rows = append(rows, timeseries.TsRecord[[]any]{Timestamp: ts, Value: cells})
 		}
-		ds, err := report.NewStaticDatasource(metas, qProbe(b, stream.Just(rows...)))
+		ds, err := report.NewStaticDatasource(metas, qProbeRows(b, rows))
 		if err != nil {
 			return nil, qInputReject{qClassify(err)}
 		}
@@ -1155,7 +1299,7 @@ func (b *qBuilder) dstatic(n *qsx) (datasource.DataSource, *tsquery.FieldMeta, e
 		}
 		rows = append(rows, timeseries.TsRecord[any]{Timestamp: ts, Value: v})
 	}
-	ds, serr := datasource.NewStaticDatasource(*fm, qProbe(b, stream.Just(rows...)))
+	ds, serr := datasource.NewStaticDatasource(*fm, qProbeRows(b, rows))
 	if serr != nil {
 		return nil, nil, qInputReject{qClassify(serr)}
 	}
